@@ -61,7 +61,7 @@ func init() {
 		MinEvals:    floor(100000, 2000000),
 		MinDistinct: floor(20000, 300000),
 		RequiredCells: func(string) []string {
-			cells := []string{"family/a-random", "family/b-mutants", "family/c-signed-malformed", "family/d-bad-key-material", "family/e-hostile-lengths", "family/f-policy-x-data", "bomb/cbor-list", "bomb/cbor-map", "bomb/json-list", "bomb/policy-not", "bomb/signed-deep-args", "bomb/signed-deep-pol", "bomb/selector-long", "bomb/policy-nested-any-failing", "bomb/policy-nested-all-passing", "bomb/policy-nested-and-or-not", "bomb/car-zero-sections", "bomb/cbor-container-empty-entries", "bomb/json-whitespace", "bomb/json-wide-list", "bomb/selector-question-marks", "bomb/signed-wide-args", "bomb/signed-wide-pol", "rss-measured", "past-first-layer"}
+			cells := []string{"family/a-random", "family/b-mutants", "family/c-signed-malformed", "family/d-bad-key-material", "family/e-hostile-lengths", "family/f-policy-x-data", "bomb/cbor-list", "bomb/cbor-map", "bomb/json-list", "bomb/policy-not", "bomb/signed-deep-args", "bomb/signed-deep-pol", "bomb/selector-long", "bomb/policy-nested-any-failing", "bomb/policy-nested-all-passing", "bomb/policy-nested-and-or-not", "bomb/car-zero-sections", "bomb/cbor-container-empty-entries", "bomb/json-whitespace", "bomb/json-wide-list", "bomb/selector-question-marks", "bomb/signed-wide-args", "bomb/signed-wide-pol", "car-length-sweep", "rss-measured", "past-first-layer"}
 			for _, e := range []string{"token.FromSealed", "token.FromDagJson", "delegation.FromSealed", "invocation.FromSealed", "container.FromCbor", "container.FromCar", "container.FromCborBase64", "container.FromCarBase64", "policy.FromDagJson", "policy.FromIPLD", "Policy.Match", "selector.Parse", "Selector.Select", "did.Parse", "DID.PubKey", "args.Add", "literal.Any"} {
 				cells = append(cells, "entry/"+e)
 			}
@@ -711,6 +711,42 @@ func c09Bulk(w *mon.W, part, parts int) {
 				in = append(in, gen.Bytes(r, 40)...)
 				c.containerEntries("car-block-length", in)
 				c.call("container.FromCarBase64", "car-block-length", in, func() { _, _ = container.FromCarBase64([]byte(base64.StdEncoding.EncodeToString(in))) })
+			}
+		}
+	}
+
+	// CAR section-length sweep: in a valid CAR, the length prefix of the header and of each block
+	// is replaced by every small value (0..80: below, at and above the size of the CID that
+	// follows) and by values around every integer-width boundary, the bytes that follow stay
+	// as they were (a complete, parseable CID and the token)
+	if car, err := wr.ToCar(); err == nil {
+		if cuts, _, err := ref.SplitCAR(car); err == nil && len(cuts) > 1 {
+			var ls []uint64
+			for l := uint64(0); l <= 80; l++ {
+				ls = append(ls, l)
+			}
+			ls = append(ls, 127, 128, 129, 255, 256, 16383, 16384, 1<<31-1, 1<<31, 1<<32-1, 1<<32, 1<<63-1, 1<<63, 1<<64-1, 32<<20-1, 32<<20, 32<<20+1)
+			starts := append([]int{0}, cuts[:len(cuts)-1]...)
+			for si, st := range starts {
+				_, n := binary.Uvarint(car[st:])
+				if n <= 0 {
+					continue
+				}
+				for _, l := range ls {
+					idx++
+					if idx%parts != part {
+						continue
+					}
+					in := append(append(append([]byte{}, car[:st]...), binary.AppendUvarint(nil, l)...), car[st+n:]...)
+					w.Distinct("car-length-sweep", si, l)
+					w.Cover("car-length-sweep")
+					c.containerEntries("car-length-sweep", in)
+					if l < 100 && l%3 == 0 {
+						c.call("container.FromCarBase64Reader", "car-length-sweep", in, func() {
+							_, _ = container.FromCarBase64Reader(strings.NewReader(base64.StdEncoding.EncodeToString(in)))
+						})
+					}
+				}
 			}
 		}
 	}
